@@ -118,6 +118,10 @@ def tree_key(extra):
     return h.hexdigest()[:24]
 
 
+LOGLEVELS = ["DEBUG", "INFO", "WARNING", "ERROR", "CRITICAL"]
+LOGFILTERS = ["verif", "other", "-verif", "-other", "verif,other", "verif,-other", "-verif,-other", "nobody"]
+
+
 def plan(tier, seed):
     """-> list of (prog, cfgs, faults)"""
     rnd = random.Random(seed)
@@ -129,7 +133,9 @@ def plan(tier, seed):
         return G.cfg(expr=rnd.choice(exprs), stop=rnd.random() < 0.3, dry=rnd.random() < 0.15,
                      show_skipped=rnd.random() < 0.6, cont=rnd.random() < 0.15,
                      capture=(rnd.random() < 0.75, rnd.random() < 0.75, rnd.random() < 0.75), retry=rnd.random() < 0.2,
-                     observe=rnd.random() < 0.3, async_steps=rnd.random() < 0.25, chatty=rnd.random() < 0.06)
+                     observe=rnd.random() < 0.3, async_steps=rnd.random() < 0.25, chatty=rnd.random() < 0.06,
+                     loglevel=rnd.choice(LOGLEVELS) if rnd.random() < 0.3 else "",
+                     logfilter=rnd.choice(LOGFILTERS) if rnd.random() < 0.3 else "")
 
     def cleanup_only_programs():
         """programs in which NOTHING fails except a cleanup registered at a given layer (every layer, raising or not)"""
@@ -145,6 +151,13 @@ def plan(tier, seed):
                     prog = {"features": [G.feature(items), G.feature([G.scenario(["pass"])])], "family": "cleanup"}
                     res.append((with_o2(prog), [G.cfg(), G.cfg(stop=True)], [[0, 0]]))
         return res
+
+    def logging_programs():
+        """every --logging-level x --logging-filter combination on two small programs with failing steps"""
+        progs = [{"features": [G.feature([G.scenario(["pass", "fail", "pass"]), G.scenario(["error"])])], "family": "logging"},
+                 {"features": [G.feature([G.scenario(["pass", "nest_fail"]), G.scenario(["pass", "pass"])], bg=["pass"])], "family": "logging"}]
+        cfgs = [G.cfg(loglevel=lv, logfilter=fl) for lv in [""] + LOGLEVELS for fl in [""] + LOGFILTERS]
+        return [(with_o2(p), cfgs, [[0, 0]]) for p in progs]
 
     def with_skips(p, prob):
         """some programs: a before_feature / before_rule / before_scenario hook excludes its element at run time"""
@@ -195,6 +208,7 @@ def plan(tier, seed):
         for p in G.family_big(rnd, 40):
             out.append((with_o2(p), [rcfg()], rfaults(p, 2)))
         out.extend(cleanup_only_programs())
+        out.extend(logging_programs())
     else:
         # ~85k runs: (a) EVERY hook invocation as injection point on the exhaustive family scen(2) under the default
         # configuration (also with autoretry: positions of the second attempt); (b) scen(3) under 4 configurations with
@@ -221,6 +235,7 @@ def plan(tier, seed):
             cf = [rcfg(), rcfg()]
             out.append((p, [dict(c, retry=False) for c in cf] if p.get("skips") else cf, [[0, 0]] + spread(nh, 6) + rfaults(p, 2)[1:]))
         out.extend(cleanup_only_programs())
+        out.extend(logging_programs())
         for p in G.family_big(rnd, 300):
             out.append((with_o2(p), [rcfg(), rcfg()], rfaults(p, 6)))
     return out
@@ -230,7 +245,7 @@ def shared(chk, part="core"):
     """Run (or load) the shared stage for this tree / tier / seed.  Returns a dict:
        n_runs, tlc: [{module,cfg,distinct,generated,wall,coverage}], verdicts: {clause: [ {key, ...} ]},
        divergences, samples, design_violations"""
-    key = tree_key({"tier": chk.tier, "seed": chk.seed, "part": part, "v": 11})
+    key = tree_key({"tier": chk.tier, "seed": chk.seed, "part": part, "v": 12})
     os.makedirs(CACHE, exist_ok=True)
     # one entry per (part, tier, repository location): runs against a mutated copy must not evict /repo's entry
     prefix = "%s-%s-%s-" % (part, chk.tier, hashlib.sha256(REPO.encode()).hexdigest()[:8])
